@@ -641,6 +641,43 @@ theorem rw_default (inp : Input ℝ) (cell : Cell ℝ) (h : inp.diam = none) :
   simp only [realFns]
   norm_num
 
+/-! ### CSKIN (`Connection::setSkinFactor`) -/
+
+/-- The stored denominator is the denominator of the relation. -/
+def DenomConsistent (c : CTF ℝ) : Prop := c.denom = Real.log (c.r0 / c.rw) + c.skin
+
+/-- After COMPDAT the stored `peaceman_denom` is `ln(r0/rw) + S` whenever the relation holds
+and CF is positive (every branch stores `2πKh/CF` or the value CF was computed from). -/
+theorem denomConsistent_of_identity (inp : Input ℝ) (cell : Cell ℝ)
+    (hid : Identity (ctfOf realFns inp cell)) (hCF : 0 < (ctfOf realFns inp cell).CF) :
+    DenomConsistent (ctfOf realFns inp cell) := by
+  unfold DenomConsistent
+  rw [denom_eq inp cell hCF]
+  unfold Identity at hid
+  rw [← hid]
+  field_simp
+
+/-- CSKIN keeps the Peaceman relation (with any accumulated WPIMULT factor `m`) and the
+consistency of the stored denominator. -/
+theorem setSkinFactor_preserves (c : CTF ℝ) (S' m : ℝ) (hd : DenomConsistent c)
+    (hid : c.CF * (Real.log (c.r0 / c.rw) + c.skin) = m * (2 * Real.pi * c.Kh))
+    (hpd : c.denom - c.skin + S' ≠ 0) :
+    let c' := setSkinFactor c S'
+    c'.CF * (Real.log (c'.r0 / c'.rw) + c'.skin) = m * (2 * Real.pi * c'.Kh) ∧ DenomConsistent c' := by
+  intro c'
+  unfold DenomConsistent at hd ⊢
+  have h1 : c'.CF = c.CF * (c.denom / (c.denom - c.skin + S')) := rfl
+  have h2 : c'.r0 = c.r0 := rfl
+  have h3 : c'.rw = c.rw := rfl
+  have h4 : c'.skin = S' := rfl
+  have h5 : c'.Kh = c.Kh := rfl
+  have h6 : c'.denom = c.denom - c.skin + S' := rfl
+  rw [h1, h2, h3, h4, h5, h6]
+  have hlog : Real.log (c.r0 / c.rw) + S' = c.denom - c.skin + S' := by rw [hd]; ring
+  refine ⟨?_, by rw [hd]; ring⟩
+  rw [hlog, mul_assoc, div_mul_cancel₀ _ hpd, hd]
+  exact hid
+
 end
 
 end OpmVerif.Peaceman
